@@ -286,6 +286,80 @@ func vfRunRefuse(c vfFaultCase, seed uint64) (o vfFaultOut) {
 	return
 }
 
+// vfRunRefuseStorm: several goroutines keep Telling numbered messages to a peer that stays unreachable: the backlog behind a
+// message that exhausts its retries is given up together with it while new messages keep arriving. Ledger: every message
+// exactly one dead letter on the sender - none lost, none reported twice.
+func vfRunRefuseStorm(c vfFaultCase, seed uint64) (o vfFaultOut) {
+	addrA := vfFreeAddr()
+	dead := vfFreeAddr()
+	a, err := vfStartNode(addrA, addrA, vivid.WithActorSystemRemotingOption(vivid.WithActorSystemRemotingReconnectLimit(c.Limit)))
+	if err != nil {
+		o.inc = err.Error()
+		return
+	}
+	ref, _ := a.sys.CreateRef(dead, "/sink")
+	const senders, per = 4, 2500
+	var wg sync.WaitGroup
+	for s := 1; s <= senders; s++ {
+		wg.Add(1)
+		go func(s int) {
+			defer wg.Done()
+			for q := 1; q <= per; q++ {
+				a.sys.Tell(ref, vfNewNetMsg(s, q, 8, false))
+				if q%50 == 0 {
+					time.Sleep(time.Millisecond)
+				}
+			}
+		}(s)
+	}
+	wg.Wait()
+	count := func() (n int) {
+		a.obs.mu.Lock()
+		defer a.obs.mu.Unlock()
+		return len(a.obs.dl)
+	}
+	// logical completion: all dead letters are in, or nothing moved for 5 s
+	last, since := count(), time.Now()
+	for last < senders*per && time.Since(since) < 5*time.Second {
+		time.Sleep(20 * time.Millisecond)
+		if n := count(); n != last {
+			last, since = n, time.Now()
+		}
+	}
+	time.Sleep(300 * time.Millisecond)
+	a.obs.mu.Lock()
+	seen := map[string]int{}
+	for _, d := range a.obs.dl {
+		seen[d]++
+	}
+	a.obs.mu.Unlock()
+	missing, dup := 0, 0
+	ex := ""
+	for s := 1; s <= senders; s++ {
+		for q := 1; q <= per; q++ {
+			k := fmt.Sprintf("vfNetMsg#%d:%d", s, q)
+			switch n := seen[k]; {
+			case n == 0:
+				missing++
+				if ex == "" {
+					ex = k + " never reported"
+				}
+			case n > 1:
+				dup++
+				if ex == "" {
+					ex = fmt.Sprintf("%s reported %d times", k, n)
+				}
+			}
+		}
+	}
+	if missing > 0 || dup > 0 {
+		o.add("c14-dead-letter-count", "unreachable, senders keep sending", "%d senders x %d messages to a peer that stays unreachable (limit %d): %d messages have no dead letter and %d have more than one (e.g. %s); every message that cannot be written must be reported exactly once", senders, per, c.Limit, missing, dup, ex)
+	}
+	o.info = fmt.Sprintf("messages=%d dead_letters=%d missing=%d duplicated=%d", senders*per, last, missing, dup)
+	_ = a.stop()
+	return
+}
+
 // raw client speaking the wire protocol to B directly (frame injection)
 func vfRawDial(addr, advertise string) (net.Conn, error) {
 	c, err := net.DialTimeout("tcp", addr, 2*time.Second)
@@ -531,6 +605,7 @@ func vfFaultCases(thorough bool) []vfFaultCase {
 	for _, lim := range []int{0, 1, 3} {
 		cs = append(cs, vfFaultCase{Kind: "refuse", Limit: lim})
 	}
+	cs = append(cs, vfFaultCase{Kind: "refusestorm", Limit: 0}, vfFaultCase{Kind: "refusestorm", Limit: 1})
 	cs = append(cs, vfFaultCase{Kind: "inject"}, vfFaultCase{Kind: "oversize", Limit: 1}, vfFaultCase{Kind: "restart", Limit: 1}, vfFaultCase{Kind: "restart", Limit: 3})
 	return cs
 }
@@ -552,6 +627,8 @@ func TestVerif_remotefaults(t *testing.T) {
 				return vfRunCut(c, seed)
 			case "refuse":
 				return vfRunRefuse(c, seed)
+			case "refusestorm":
+				return vfRunRefuseStorm(c, seed)
 			case "inject":
 				return vfRunInject(c, seed)
 			case "oversize":
